@@ -34,7 +34,16 @@ def shuffle_seam(chooser):
 
 
 def _blkname(b):
-  return getattr(b, "__name__", repr(b))
+  """name of the block plus the name of the component it belongs to (two children of one class have same-named blocks)"""
+  name = getattr(b, "__name__", repr(b))
+  host = ""
+  try:
+    code = b.__code__
+    if "s" in code.co_freevars:
+      host = repr(b.__closure__[code.co_freevars.index("s")].cell_contents)
+  except Exception:
+    host = ""
+  return (name, host)
 
 
 @contextlib.contextmanager
